@@ -98,6 +98,8 @@ def check(ctx, replay=None):
                 call = res["calls"][ci]
                 sample.append({"method": call["m"]["name"], "params": [res["mod"].rust_ty(t) for _, t in call["m"]["params"]],
                                "ret": res["mod"].rust_ty(call["m"]["ret"]), "observed": res["records"].get(ci)})
+    import c01_extra
+    nextra = c01_extra.run(ctx)
     fails = run_shards(PROP, HEADER, goals) if goals else []
     if fails and viol == 0:
         for f in fails[:3]:
@@ -116,4 +118,4 @@ def check(ctx, replay=None):
         "transcribed into Abi/Model.v; gen/Tables.v regenerated from fmt_primitive_as_c, fmt_primitive_name_for_derived_type and capi.h.jinja. "
         "Value transport relies on rustc and gcc implementing the same C ABI for equal repr(C) types (trusted); register assignment is not modelled",
         sample, ["callbacks are exercised by C03's end-to-end part", "x86-64 LP64 layout for size/offset theorems"],
-        {"bridges": nb, "calls_executed": ncalls})
+        {"bridges": nb, "calls_executed": ncalls, "extra_shape_values_compared": nextra})
